@@ -321,7 +321,7 @@ impl Gen {
                 match rng.below(3) {
                     0 => {
                         let u = self.any_user(sc);
-                        let a = o.min_stake().max(1000);
+                        let a = o.min_stake().max(1000).min(1_000_000_000_000_000_000_000_000_000);
                         let to = if self.rng.chance(1, 2) { Some(self.rng.pick(&sc.native_users).clone()) } else { None };
                         let mut pre = vec![Op::BankMint { addr: u.clone(), denom: sc.s.clone(), amount: a }];
                         pre.append(&mut ops);
